@@ -1,5 +1,5 @@
 """C18 - IFT patches change exactly what they say, atomically and order-independently."""
-import json, os
+import json, os, shutil
 import vlib
 from vlib import Check
 
@@ -90,6 +90,23 @@ def run(tier):
         ck.cov["traces_validated_against_impl"] += info.get("events", 0)
     else:
         ck.violation("IFTCff rejected a glyph keyed patch application on CFF charstrings: %s" % info.get("rejected", "")[:1200], {"kind": "cff-trace", "trace": trace})
+    # glyf / gvar with short offsets: totals around the 131070-byte reach (IFTSizesMC, IFTCff!TSizes)
+    r = vlib.run_tlc(wd, "IFTSizesMC", cfg="IFTSizesMC.cfg", workers=1, timeout=600)
+    ck.add_tlc("tlc:IFTSizes", r)
+    if not r.ok:
+        ck.spec_error("IFTSizesMC", r)
+    trace = os.path.join(wd, "sizes.ndjson")
+    res = vlib.run_harness("fv-ift", ["c18", "--size-cases", r.out, "--catalogue", CAT, "--out", trace])
+    ck.add_harness("replay:sizes", res, traces=False)
+    os.remove(r.out)
+    ok, info = vlib.validate_trace(wd, "IFTCff", trace, timeout=600)
+    ck.cov["parts"]["validate:sizes"] = info
+    if ok:
+        ck.cov["traces_validated_against_impl"] += info.get("events", 0)
+    else:
+        keep = os.path.join(vlib.REPLAYS, "C18-trace-sizes.ndjson")
+        shutil.copy(trace, keep)
+        ck.violation("IFTCff!TSizes rejected a glyph keyed patch application around the short-offset reach: %s" % info.get("rejected", "")[:1200], {"kind": "sizes-trace", "trace": keep})
     return ck.finish()
 
 
